@@ -274,7 +274,11 @@ impl Property for P {
             (any::<bool>(), any::<u16>(), any::<u16>(), 0usize..5, dyadic()),
             1..=4,
         );
-        let frag_case = (prop::collection::vec(frag_exact(), 0..=n), wspec).prop_map(
+        let frs = prop_oneof![
+            60 => prop::collection::vec(frag_exact(), 0..=n),
+            1 => gen::log_count(2000).prop_flat_map(|k| prop::collection::vec(frag_exact(), k..=k)),
+        ];
+        let frag_case = (frs, wspec).prop_map(
             |(frags, wspec)| {
                 let mut widths = Vec::new();
                 for (boundary, a, b, d, free) in wspec {
@@ -312,7 +316,22 @@ impl Property for P {
                 spec,
                 prior,
             });
-        prop_oneof![frag_case, text_case].boxed()
+        let mut og2 = OptGen::full();
+        og2.algos = gen::AlgoSet::First;
+        let scaled_text = (
+            gen::scaled_text_and_width(mix, 500),
+            gen::optspec(og2),
+            any::<bool>(),
+        )
+            .prop_map(|((par, w), mut spec, prior)| {
+                spec.width = w;
+                Case::Text {
+                    par: par.replace(['\n', '\r'], " "),
+                    spec,
+                    prior,
+                }
+            });
+        prop_oneof![50 => frag_case, 50 => text_case, 1 => scaled_text].boxed()
     }
     fn check(c: &Case, _m: Mode) -> Outcome {
         check(c)
